@@ -4,7 +4,9 @@ Domain : Hypothesis-generated methods with long-running (Slow: n) and overlappin
          Pause/Hold, Simulate, Watch/Alarm/Block, now and then a failing (Boom) or rejected (Bad) command or a
          method-issued Stop/Restart, plus 0-3 earlier user requests / injected commands.  For every program a Stop and a
          Restart are delivered at EVERY tick index of its natural length, each (a) as the user request of
-         ExecuteControlCommandMsg and (b) as injected code (runs in the interpreter, i.e. after the method line of that tick).
+         ExecuteControlCommandMsg and (b) as injected code (runs in the interpreter, i.e. after the method line of that tick);
+         and at every tick index PAIRS of user requests {Stop,Restart} x {Stop,Restart} 0, 1 or 2 ticks apart (quick: all
+         combinations one tick apart, the other distances in rotation; thorough: all).  A rejected request is just not made.
 Oracle : judged at every on_stop event (the tick in which Stop completes / Restart reaches its Stopped phase):
            held-instance            uod.command_instances is empty (for Restart also in the tick the new run starts)
            request-still-executing  no UOD request is left in the command manager's executing list
@@ -18,6 +20,8 @@ Oracle : judged at every on_stop event (the tick in which Stop completes / Resta
          (runid-not-fresh), and the new run's effects (marks, command callbacks with arguments and iteration, block events,
          System State; tick by tick) equal those of a fresh Start of the same method (restart:not-from-first-line when the
          first effect differs, restart:differs-from-fresh-start otherwise) up to the next external request.
+         An accepted user Restart with no Stop requested/begun from 3 ticks before it onwards must lead to a new run within 8
+         ticks (restart:accepted-but-no-new-run:<run-ended|run-not-ended>); with a Stop nearby the winner is not judged.
 Signatures name the mechanism: args-rejected:instance-never-disposed (an instance whose arguments were rejected never
 gets a callback and is never removed), started-after-cancel:<code-issued|user-request>:command-survives-stop (a command
 first initialised after the Stop/Restart - issued by code or requested by the user - had cancelled the running commands),
@@ -57,9 +61,10 @@ ASSUMPTIONS = [
     "inputs are constant per case; Watch/Alarm conditions therefore fire at once or never unless a Simulate line changes them",
 ]
 TIERS = {
-    "quick": {"programs": 560, "max_len": 40, "post": 12, "long_max": 8, "depth": 2, "top": 8, "budget_s": 110},
-    "thorough": {"programs": 3200, "max_len": 70, "post": 18, "long_max": 14, "depth": 3, "top": 12, "budget_s": 1500},
+    "quick": {"programs": 400, "pairs": "rotating", "max_len": 40, "post": 12, "long_max": 8, "depth": 2, "top": 8, "budget_s": 110},
+    "thorough": {"programs": 2000, "pairs": "all", "max_len": 70, "post": 18, "long_max": 14, "depth": 3, "top": 12, "budget_s": 1500},
 }
+RESTART_BOUND = 8      # ticks; Restart takes 3 (Restarting, Stopped, Running)
 MODES = [("user", "Stop"), ("user", "Restart"), ("inject", "Stop"), ("inject", "Restart")]
 
 
@@ -85,10 +90,27 @@ def bases(draw, cfg):
     return {"tree": tree, "inputs": draw(C.INPUTS), "pre": pre}
 
 
-def make_case(base, j: int, mode: str, cmd: str, post: int) -> dict:
+def make_case(base, j: int, delivery, post: int) -> dict:
+    """delivery: [(offset, mode, cmd), ...] - requests made before tick index j + offset"""
     ops = [o for o in base["pre"] if o[0] <= j]
-    ops.append([j, "user", cmd] if mode == "user" else [j, "inject", [[cmd.lower(), 0]]])
-    return {"tree": base["tree"], "inputs": base["inputs"], "ops": ops, "n_ticks": j + 1 + post}
+    for off, mode, cmd in delivery:
+        ops.append([j + off, "user", cmd] if mode == "user" else [j + off, "inject", [[cmd.lower(), 0]]])
+    return {"tree": base["tree"], "inputs": base["inputs"], "ops": ops, "n_ticks": j + max(d[0] for d in delivery) + 1 + post}
+
+
+PAIR_COMBOS = [("Stop", "Stop"), ("Stop", "Restart"), ("Restart", "Stop"), ("Restart", "Restart")]
+
+
+def deliveries(j: int, pairs: str) -> list:
+    """single deliveries + pairs of user requests 0, 1 or 2 ticks apart (a rejected second request is simply not made: the
+    runner counts it).  'rotating': every pair combination one tick apart, the 0- and 2-tick distances for one combination
+    per tick index in turn; 'all': every combination at every distance"""
+    out = [[(0, mode, cmd)] for mode, cmd in MODES]
+    for k, (a, b) in enumerate(PAIR_COMBOS):
+        for d in (0, 1, 2):
+            if pairs == "all" or d == 1 or k == j % 4:
+                out.append([(0, "user", a), (d, "user", b)])
+    return out
 
 
 def reference(case, n: int) -> list:
@@ -106,7 +128,8 @@ def oracle(case, tr: C.Trace, ref_eff: list | None = None) -> tuple[list[Violati
     info = {"stops": 0, "restarts": 0, "alive_at_stop": False, "timed_at_stop": False, "sim_at_stop": False,
             "paused_at_stop": False, "holding_at_stop": False, "error_at_stop": False, "overlap_alive": False,
             "restart_compared": 0, "compared_ticks": 0, "derived_suppressed": 0, "uod_in_runlog": 0, "callback_in_begin_tick": False,
-            "stop_kinds": [], "deliveries": [], "suppressed_by": [], "leftover_suppressed": [], "tick_raised": 0}
+            "stop_kinds": [], "deliveries": [], "suppressed_by": [], "leftover_suppressed": [], "restart_accepted": 0,
+            "restart_vs_stop_not_judged": 0, "restart_request_left_after_stop": False, "tick_raised": 0}
 
     def viol(sig, msg):
         if not any(v.sig == sig for v in out):
@@ -281,6 +304,8 @@ def oracle(case, tr: C.Trace, ref_eff: list | None = None) -> tuple[list[Violati
                                          for m in sorted(symptoms))
         if old_in_new is not None and not leaked:
             viol("callback-after-stop:%s:old-instance-in-new-run" % kind, old_in_new)
+        if kind == "Stop" and "Restart" in T.internal:
+            info["restart_request_left_after_stop"] = True   # internal command, outside the statement (C06): classified only
         # (4) simulations cleared, (5) run id cleared
         for name in T.simulated:
             viol("simulated-after:%s" % kind, "tick %d: %s completed but tag %s is still simulated" % (s, kind, name))
@@ -321,6 +346,29 @@ def oracle(case, tr: C.Trace, ref_eff: list | None = None) -> tuple[list[Violati
                             break
                         if got[k][1]:
                             first_seen = True
+    # (7) a user Restart that was accepted leads to a new run within RESTART_BOUND ticks - unless a Stop (user, injected or a
+    # method line) was accepted / began from 3 ticks before the request onwards: which of the two wins is not stated
+    stop_activity = [t.no for t in tr.ticks for o in t.ops
+                     if o[0] in ("user", "inject") and o[2] and (o[1] == "Stop" or o[1] == [["stop", 0]])]
+    stop_activity += [e[0] for e in tr.events if e[1] == "cancel_all" and e[2] == "Stop"]
+    last_no = tr.ticks[-1].no if tr.ticks else -1
+    for t in tr.ticks:
+        for o in t.ops:
+            if not (o[0] == "user" and o[1] == "Restart" and o[2]) or last_no < t.no + RESTART_BOUND:
+                continue
+            info["restart_accepted"] += 1
+            if any(e[1] == "start" and t.no <= e[0] <= t.no + RESTART_BOUND for e in tr.events):
+                continue
+            if any(x >= t.no - 3 for x in stop_activity):
+                info["restart_vs_stop_not_judged"] += 1
+                continue
+            ended = [r for r in runs if r["stop_tick"] is not None and r["stop_tick"] >= t.no]
+            viol("restart:accepted-but-no-new-run:%s" % ("run-ended" if ended else "run-not-ended"),
+                 "user Restart accepted before tick %d (state then %s), no Stop requested, but no run started up to tick %d; "
+                 "the running run %s; state at the end: %s, Run Id %r"
+                 % (t.no, tr.by_no(t.no - 1).state if tr.by_no(t.no - 1) else "?", t.no + RESTART_BOUND,
+                    ("was ended in tick %d" % ended[0]["stop_tick"]) if ended else "was not ended",
+                    tr.ticks[-1].state, tr.ticks[-1].run_id))
     info["tick_raised"] = sum(1 for t in tr.ticks if t.raised is not None)   # judged by C13, only classified here
     return out, info
 
@@ -358,19 +406,26 @@ def run_shard(col, cfg):
         kinds = {l.split(":")[0].strip().split(" ")[0] for l in base_tr.lines}
         ref_eff = None
         for j in range(L):
-            for mode, cmd in MODES:
+            for dl in deliveries(j, cfg.get("pairs", "rotating")):
                 if col.expired():
                     return
-                case = make_case(base, j, mode, cmd, post)
+                case = make_case(base, j, dl, post)
                 tr = C.run_case(case)
-                if cmd == "Restart" and ref_eff is None:
-                    ref_eff = reference(case, cfg["max_len"] + post)
+                if ref_eff is None and any(c == "Restart" for _o, _m, c in dl):
+                    ref_eff = reference(case, cfg["max_len"] + post + 2)
                 vs, info = oracle(case, tr, ref_eff)
-                delivered = [t for t in tr.ticks if any(o[0] in ("user", "inject") and o[2] and
-                                                        (o[1] == cmd or o[1] == [[cmd.lower(), 0]]) for o in t.ops)]
+                n_pre = len(case["ops"]) - len(dl)
+                made = [o for t in tr.ticks for o in t.ops if o[0] in ("user", "inject")][n_pre:]
+                delivered = [o for o in made if o[2]]
                 nontrivial = (info["stops"] + info["restarts"] > 0) and \
                     (info["alive_at_stop"] or info["timed_at_stop"] or info["callback_in_begin_tick"])
-                classes = ["%s-%s" % (mode, cmd)]
+                if len(dl) == 1:
+                    classes = ["%s-%s" % (dl[0][1], dl[0][2])]
+                else:
+                    classes = ["pair:%s+%s" % (dl[0][2], dl[1][2]), "pair:%d-ticks-apart" % dl[1][0]]
+                    if len(delivered) == 2:
+                        classes.append("pair:both-accepted")
+                        classes.append("pair:both-accepted:%s+%s:%d-ticks-apart" % (dl[0][2], dl[1][2], dl[1][0]))
                 classes += [k for k in ("alive_at_stop", "timed_at_stop", "sim_at_stop", "paused_at_stop", "holding_at_stop",
                                         "error_at_stop", "overlap_alive", "callback_in_begin_tick") if info[k]]
                 if info["restart_compared"]:
@@ -389,6 +444,11 @@ def run_shard(col, cfg):
                     classes.append("earlier-requests")
                 if info["tick_raised"]:
                     classes.append("tick-raised(judged-by-C13)")
+                col.count("count:accepted-user-restarts-judged-for-a-new-run", info["restart_accepted"] - info["restart_vs_stop_not_judged"])
+                if info["restart_vs_stop_not_judged"]:
+                    classes.append("restart-with-stop-nearby(new-run-not-judged)")
+                if info["restart_request_left_after_stop"]:
+                    classes.append("stale-Restart-request-listed-after-Stop-completed(not-judged,C06)")
                 col.count("count:uod-instances-checked-in-runlog", info["uod_in_runlog"])
                 col.count("count:restart-ticks-compared", info["compared_ticks"])
                 for m in sorted(set(info["leftover_suppressed"])):
